@@ -10,7 +10,7 @@ EXPLANATION = ('What the exporter hands to segyio and writes itself, per functio
                'C02 this is the round trip up to what segyio does with the spec.')
 ASSUMPTIONS = [
     'AX-SEGYIO-W: segyio.create(file, spec) writes the traces / headers assigned to .trace / .header in order, in the format spec.format (IBM rounding is segyio\'s); not verified',
-    'regular 3-D reader state (mk_reader); 2-D / irregular exports use the same functions with the tracecount branch of convert_to_segy (read, not separately verified); CLI not under contract',
+    'regular 3-D reader state (mk_reader); 2-D / irregular exports use the same functions with the tracecount branch of convert_to_segy (read, not separately verified); the sgz2sgy command is under a data-flow contract',
     'sample axis starts at a whole millisecond (it is regenerated from a 16-bit header field)',
 ]
 TRUSTED = ['segyio.create / segyio.spec']
